@@ -11,6 +11,8 @@
 // a shadow map of live blocks with fill patterns.
 #include "common/hv.h"
 #include <map>
+#include <fcntl.h>
+#include <sys/wait.h>
 #include <climits>
 #include <set>
 #include <memory>
@@ -532,6 +534,68 @@ static void run_op(const std::vector<std::string> &w, const std::string &, out &
         sop_err.clear();
         sop_ctor_runs = sop_dtor_runs = 0;
         const std::string &k = w[1];
+        if (k == "poolx")
+        {
+            // pool_engage with an element size / zone size it must refuse (its asserts), run in a child
+            // process: the zone is exactly sized, so an accepted bad request is a memory error there
+            size_t e = strtoul(w[2].c_str(), 0, 10), size = strtoul(w[3].c_str(), 0, 10);
+            int pfd[2];
+            if (pipe(pfd) != 0)
+            {
+                o.result = "bad-op";
+                return;
+            }
+            fflush(stdout);
+            pid_t pid = fork();
+            if (pid == 0)
+            {
+                dup2(pfd[1], 2);
+                close(pfd[0]);
+                // the child must not touch the parent's stdin / stdout (exit() would seek the shared input back)
+                int nul = open("/dev/null", O_RDWR);
+                dup2(nul, 0);
+                dup2(nul, 1);
+                exact_buf z(size);
+                pool_head h;
+                pool_init(&h);
+                pool_engage(&h, z.p, size, e);
+                fprintf(stderr, "engaged %zu\n", (size_t)pool_avail(&h));
+                _exit(0);
+            }
+            close(pfd[1]);
+            std::string err;
+            char buf[512];
+            ssize_t got;
+            while ((got = read(pfd[0], buf, sizeof buf)) > 0) err.append(buf, (size_t)got);
+            close(pfd[0]);
+            int status = 0;
+            waitpid(pid, &status, 0);
+            bool asserted = err.find("Assertion") != std::string::npos;
+            bool clean = WIFEXITED(status) && WEXITSTATUS(status) == 0;
+            if (asserted) o.result = "assert";
+            else if (clean) o.result = err.substr(0, err.find('\n'));
+            else o.result = "memory-error";
+            // independent of the model: a cell must hold the 8-byte link, and the zone must be whole cells
+            bool must_refuse = e < sizeof(struct slist_head) || size % e != 0;
+            if (must_refuse && !asserted)
+            {
+                // one line of the child's report: the sanitizer's ERROR / runtime error line
+                std::string why = "engaged";
+                if (!clean)
+                {
+                    size_t at = err.find("ERROR: ");
+                    if (at == std::string::npos) at = err.find("runtime error");
+                    if (at == std::string::npos) at = 0;
+                    why = "memory error: " + err.substr(at, 90);
+                    for (char &ch : why)
+                        if (ch == '\n' || ch == '\t' || ch == '\r') ch = ' ';
+                }
+                o.fail("pool_engage(size " + s(size) + ", elemsz " + s(e) + ") was not refused: " + why);
+            }
+            if (!must_refuse && !clean) o.fail("pool_engage of a valid zone failed");
+            o.tag(must_refuse ? "engage-refused" : "engage-child");
+            return;
+        }
         if (k == "mpool")
         {
             MC.reset(new MPoolCase());
@@ -1639,6 +1703,11 @@ static void gen(rng &r, const std::string &tier)
         for (size_t cap : {1, 3, 4, 7})
             if (th || (e / 4 + cap + g_seed) % 3 == 0)
                 gen_pool_case(r, (e / 4 + cap) % 2, e, cap);
+    // element sizes smaller than the link / zones that are not whole cells must be refused (asserts)
+    for (size_t e : {0, 1, 2, 4, 7})
+        for (size_t size : {8, 16, 28})
+            if (th || (e + size + g_seed) % 3 == 0) printf("reset poolx %zu %zu\n", e, size);
+    puts("reset poolx 16 40\nreset poolx 24 100\nreset poolx 8 64\nreset poolx 16 48\nreset poolx 9 27\nreset poolx 8 0");
     // a default-constructed igris::pool (no zone): every query must answer "empty"
     puts("reset ipool0\ng\nsz\nca 0\nit\np null\ng\nca -1\nsz");
     for (auto &k : sop_kinds)
